@@ -236,7 +236,9 @@ func printStats(st *RunStats) {
 	if st.Truncated {
 		fmt.Println("  TRUNCATED (budget)")
 	}
-	fmt.Println("  top functions:", topN(st.FnSteps, 8, func(k string) bool { return strings.Contains(k, repoPath) && !strings.Contains(k, "ZZ") && !strings.Contains(k, "zz") }))
+	fmt.Println("  top functions:", topN(st.FnSteps, 8, func(k string) bool {
+		return strings.Contains(k, repoPath) && !strings.Contains(k, "ZZ") && !strings.Contains(k, "zz")
+	}))
 }
 
 func mustJSON(v any) []byte {
